@@ -228,3 +228,62 @@ def validate_cases(out, prop, module, cases, results, project, constants, wd, wh
     if pending:
         out.notes.append("%d cases not validated after %d rejections (capped)" % (len(pending), rounds))
     return accepted, rejected, sum(len(p) for p in per_case)
+
+
+# ----------------------------------------------------------------------------- C04 projection
+
+AGENT_LANES = ["val", "val2", "tval", "map", "omap", "tmap", "sup", "cmd"]
+SYNC_LANES = ["val", "val2", "tval", "map", "omap", "tmap", "sup"]
+
+
+def render_map_op(e):
+    if e["op"] == "upd":
+        return "@update(key:%d) %d" % (e["k"], e["v"])
+    if e["op"] == "rem":
+        return "@remove(key:%d)" % e["k"]
+    return "@clear"
+
+
+def proj_link(log):
+    """events of Trace_LinkProtocol.tla"""
+    out = [{"e": "reset"}]
+    first_start = True
+    clean = False
+    for e in log:
+        k = e["e"]
+        if k == "start":
+            if not first_start:
+                out.append({"e": "restart"})
+            first_start = False
+            for l in ALL_VLANES:
+                out.append({"e": "produce", "lane": l, "body": str(e.get(l, 0))})
+            for l in ALL_MLANES:
+                for (kk, vv) in e.get(l, []):
+                    out.append({"e": "produce", "lane": l, "body": "@update(key:%d) %d" % (kk, vv)})
+        elif k == "lane" and e["lane"] in ALL_VLANES and e["op"] == "set":
+            out.append({"e": "produce", "lane": e["lane"], "body": str(e["v"])})
+        elif k == "lane" and e["lane"] in ALL_MLANES:
+            out.append({"e": "produce", "lane": e["lane"], "body": render_map_op(e)})
+        elif k == "supply":
+            out.append({"e": "produce", "lane": e["lane"], "body": str(e["v"])})
+        elif k == "req":
+            out.append({"e": "req", "r": e["r"], "lane": e["lane"], "op": e["op"]})
+        elif k == "frame":
+            f = {"e": "frame", "r": e["r"], "lane": e["lane"], "kind": e["kind"]}
+            if "body" in e:
+                f["body"] = e["body"]
+            if "node" in e or "origin" in e:
+                f["kind"] = "misaddressed"      # wrong node uri / origin: no P action matches
+            out.append(f)
+        elif k in ("drop", "dropread", "eof", "frame_error"):
+            out.append({"e": "gone", "r": e["r"]})
+        elif k == "closed":
+            out.append({"e": "closed", "r": e["r"]})
+        elif k == "quiescent":
+            out.append({"e": "quiescent", "drained": e["drained"]})
+        elif k == "stopped":
+            clean = e.get("result") == "ok" and not e.get("spontaneous")
+            out.append({"e": "end", "clean": clean})
+        elif k == "killed":
+            out.append({"e": "end", "clean": False})
+    return out
